@@ -197,6 +197,11 @@ def _check_case(case, acc):
         for idx, node in enumerate(tree):
             if hasattr(node, "__dict__") and not isinstance(node, SymlinkNodeMixin) and idx % case["unpicklable"] == 0:
                 node.callback, node.local = nodes.local_value(idx)
+    alive = []
+    if case.get("hierarchy") == "LM" and case.get("weakrefs"):
+        import weakref
+
+        alive = [weakref.ref(node) for node in tree]  # live weak references to the nodes while they are copied
     if case.get("warm") is not None:
         # the first node of the hierarchy whose state is ever taken is a lone instance of one of the three classes
         lone = HIERARCHY[0][case["warm"]]("lone")
@@ -286,6 +291,7 @@ def _check_case(case, acc):
     acc.tag("entry_not_root", case["entry"] != 0)
     acc.tag("tree_rearranged_before_copying", bool(case.get("premut")))
     acc.tag("class_hierarchy_adding_slots_per_level", bool(case.get("hierarchy")))
+    acc.tag("weakly_referenced_slotted_nodes", bool(alive) and all(r() is not None for r in alive))
     acc.tag("attribute_values_only_copy_can_handle", bool(case.get("unpicklable")))
 
 
@@ -347,7 +353,7 @@ def _hierarchy_cases(max_nodes):
                 for entry in range(size):
                     for warm in (None, 0, 2):
                         k += 1
-                        yield {"tree": spec, "entry": entry, "method": methods[k % len(methods)], "hierarchy": mixin, "warm": warm}
+                        yield {"tree": spec, "entry": entry, "method": methods[k % len(methods)], "hierarchy": mixin, "warm": warm, "weakrefs": k % 2 == 0}
 
 
 def _unpicklable_cases(max_nodes):
